@@ -37,6 +37,10 @@ structure PyCtx where
 /-- `ssl.SSLContext(ssl.PROTOCOL_TLS_CLIENT)` -/
 def PyCtx.fresh : PyCtx := ⟨.required, true, .unset⟩
 
+/-- `ssl.SSLContext(sslopt.get("ssl_version", ssl.PROTOCOL_TLS_CLIENT))`: a context made for one of the legacy
+    protocol constants (PROTOCOL_TLS, PROTOCOL_TLSv1_2, …) starts with verification OFF (CERT_NONE, no host-name check). -/
+def PyCtx.freshOf (legacy : Bool) : PyCtx := if legacy then ⟨.none, false, .unset⟩ else PyCtx.fresh
+
 /-- `context.check_hostname = v` -/
 def setCheck (c : PyCtx) (v : Bool) : PyCtx :=
   if v ∧ c.verify = .none then { c with verify := .required, chk := true } else { c with chk := v }
@@ -52,6 +56,7 @@ structure Merged where
   caCerts : Option Str
   caCertPath : Option Str
   context : Option Nat
+  legacy : Bool := false
   deriving Repr, DecidableEq
 
 /-- `_wrap_sni_socket(sock, sslopt, hostname, check_hostname)` up to the `wrap_socket` call. -/
@@ -59,7 +64,7 @@ def wrapSni (o : Merged) (hostname : Str) : Except HExn Policy :=
   match o.context with
   | some c => .ok (.user c hostname)
   | none =>
-    let c0 := PyCtx.fresh
+    let c0 := PyCtx.freshOf o.legacy
     -- if sslopt.get("cert_reqs", CERT_NONE) != CERT_NONE: load CAs
     let c1 :=
       if o.certReqs.getD (certOf Gen.h2WrapLoadCertDefault) ≠ .none then
@@ -95,6 +100,6 @@ def sslSocket (u : SslOpt) (env : TlsEnv) (hostname : Str) : Except HExn Policy 
   let caCerts := if useFile then certPath else u.caCerts
   let caCertPath := if useDir then certPath else u.caCertPath
   let hostname := effectiveName u hostname
-  wrapSni ⟨certReqs, u.checkHostname, caCerts, caCertPath, u.context⟩ hostname
+  wrapSni ⟨certReqs, u.checkHostname, caCerts, caCertPath, u.context, u.legacy⟩ hostname
 
 end WS.Model.Tls
